@@ -334,6 +334,21 @@ def _reach_avoid (g, start, avoid, restrict):
       seen.add(m); st.append(m)
   return seen
 
+def _rx_attr (iow):
+  """(expression text of the attribute that holds the switch-side receive buffer, constructor of a sample value): `self.receive_buf`
+  itself - or, when receive_buf is a property over a private attribute (`return bytes(self._rx_buf)`), that attribute"""
+  pf = iow.methods.get('receive_buf')
+  if pf is not None and any('property' in norm(d) or norm(d).endswith('.setter') or norm(d).endswith('.getter') for d in pf.node.decorator_list):
+    props = [x for x in iow.node.body if isinstance(x, ast.FunctionDef) and x.name == 'receive_buf']
+    for x in props:
+      for r_ in q.returns_of(x):
+        if r_.value is None: continue
+        for a_ in ast.walk(r_.value):
+          if isinstance(a_, ast.Attribute) and norm(a_.value) == 'self':
+            mut = any(isinstance(c_, ast.Call) and call_name(c_) == 'bytearray' for y in iow.node.body for c_ in ast.walk(y))
+            return norm(a_), (bytearray if mut else bytes), props
+  return 'self.receive_buf', bytes, []
+
 def _emptied_when_all_consumed (f, st, buf, count=None):
   """`buf = b''` is a prefix drop when a dominating guard says the consumed count equals len(buf)"""
   v = st.value
@@ -382,13 +397,24 @@ def _buffers (ctx, repo):
         ctx.ob('R-OWN', f, "`%s` drops a prefix only" % norm(st), good, "suffix slice" if good else "%s rewrites the reassembly buffer (not append / prefix-drop): bytes are lost, duplicated or reordered" % f.qual, (mod, st), 'D1')
   ctx.floor('controller buffer writers', n, 3)
   iow = repo.cls('lib.ioworker', 'IOWorker'); iom = iow.module
+  RB, RBK, rb_props = _rx_attr(iow)
   n = 0
   for cls in iom.classes.values():
     for f in cls.methods.values():
       for t, v, st, k in q.stores_in(f.node):
-        if norm(t) != 'self.receive_buf': continue
+        if k == 'del' and isinstance(t, ast.Subscript) and norm(t.value) == RB:
+          # in-place removal from a mutable buffer: a prefix only
+          n += 1
+          good = isinstance(t.slice, ast.Slice) and t.slice.lower is None and t.slice.upper is not None and t.slice.step is None
+          if good: good = _suffix_by_evaluation(repo, iom, cls, f, RB, RBK)
+          ctx.ob('R-OWN', f, "`%s` drops a prefix only" % norm(st), good, "del of a prefix slice" if good else "%s rewrites the receive buffer" % f.qual, (iom, st), 'D1'); continue
+        if norm(t) != RB: continue
         n += 1
-        if k == 'assign' and isinstance(v, ast.BinOp) and isinstance(v.op, ast.Add) and norm(v.left) == 'self.receive_buf':
+        if f.node in rb_props:
+          # the property's setter: converts what it is given into the buffer's representation
+          good = len(f.node.args.args) == 2 and norm(v) in ('bytearray(%s)' % f.node.args.args[1].arg, 'bytes(%s)' % f.node.args.args[1].arg, f.node.args.args[1].arg)
+          ctx.ob('R-OWN', f, "the receive_buf setter stores exactly what it is given", good, norm(st), (iom, st), 'D1'); continue
+        if k == 'assign' and isinstance(v, ast.BinOp) and isinstance(v.op, ast.Add) and norm(v.left) == RB:
           # the append written out: buf = buf + data
           good = f.name == '_push_receive_data' and norm(v.right) == f.params[1]
           ctx.ob('R-OWN', f, "received bytes are appended (`%s`)" % norm(st), good, "buf + new data" if good else "unexpected append in %s" % f.qual, (iom, st), 'D1')
@@ -396,10 +422,10 @@ def _buffers (ctx, repo):
           good = isinstance(st.op, ast.Add) and f.name == '_push_receive_data' and norm(st.value) == f.params[1]
           ctx.ob('R-OWN', f, "received bytes are appended (`%s`)" % norm(st), good, "+= new data" if good else "unexpected append in %s" % f.qual, (iom, st), 'D1')
         elif f.name == '__init__':
-          ctx.ob('R-OWN', f, "buffer starts empty", isinstance(v, ast.Constant) and v.value == b'', norm(st), (iom, st), 'D1')
+          ctx.ob('R-OWN', f, "buffer starts empty", (isinstance(v, ast.Constant) and v.value == b'') or norm(v) in ('bytearray()', 'bytes()', "bytearray(b'')"), norm(st), (iom, st), 'D1')
         else:
-          good = (isinstance(v, ast.Subscript) and norm(v.value) == 'self.receive_buf' and isinstance(v.slice, ast.Slice) and v.slice.upper is None and v.slice.lower is not None) or _emptied_when_all_consumed(f, st, 'self.receive_buf')
-          if not good: good = _suffix_by_evaluation(repo, iom, cls, f, 'self.receive_buf')
+          good = (isinstance(v, ast.Subscript) and norm(v.value) == RB and isinstance(v.slice, ast.Slice) and v.slice.upper is None and v.slice.lower is not None) or _emptied_when_all_consumed(f, st, RB)
+          if not good: good = _suffix_by_evaluation(repo, iom, cls, f, RB, RBK)
           ctx.ob('R-OWN', f, "`%s` drops a prefix only" % norm(st), good, "suffix slice" if good else "%s rewrites the receive buffer" % f.qual, (iom, st), 'D1')
   ctx.floor('switch-side buffer writers', n, 4)
   # the sockets are non-blocking and a receive is made once per readiness notification; a second recv() in the same invocation
@@ -425,13 +451,14 @@ def _buffers (ctx, repo):
              "recv() is called repeatedly in one invocation and no handler distinguishes EAGAIN/EWOULDBLOCK: when the pending bytes are an exact multiple of the read size the extra recv raises, the error path closes the connection and every later message is lost",
              (owner.module, n_.ast), 'D7')
   crb = q.find_method(repo, iow, 'consume_receive_buf', 'C02'); ctx.analysed(crb)
-  st = [s_ for t, v, s_, k in q.stores_in(crb.node) if norm(t) == 'self.receive_buf']
-  good = bool(st) and all(norm(x.value) == 'self.receive_buf[%s:]' % crb.params[1] or _emptied_when_all_consumed(crb, x, 'self.receive_buf', crb.params[1]) for x in st) \
-         and any(norm(x.value) == 'self.receive_buf[%s:]' % crb.params[1] for x in st)
+  st = [s_ for t, v, s_, k in q.stores_in(crb.node) if norm(t) == RB]
+  good = bool(st) and all(norm(x.value) == '%s[%s:]' % (RB, crb.params[1]) or _emptied_when_all_consumed(crb, x, RB, crb.params[1]) for x in st) \
+         and any(norm(x.value) == '%s[%s:]' % (RB, crb.params[1]) for x in st)
   if not good:
     # by evaluation: consuming 2 of b'abcdef' leaves b'cdef'
     gc_ = q.cfg_of(crb); outs_ = set()
-    for p_, e_ in q.paths_under(repo, iow.module, gc_, q.Env({'self.receive_buf': b'abcdef', crb.params[1]: 2}), gc_.entry, [gc_.exit], iow, limit=20): outs_.add(e_.exact.get('self.receive_buf', '?'))
+    for p_, e_ in q.paths_under(repo, iow.module, gc_, q.Env({RB: RBK(b'abcdef'), crb.params[1]: 2}), gc_.entry, [gc_.exit], iow, limit=20):
+      o_ = e_.exact.get(RB, '?'); outs_.add(bytes(o_) if isinstance(o_, (bytes, bytearray)) else '?')
     if outs_ == {b'cdef'}: good = True
   ctx.ob('R-AGREE', crb, "consume drops exactly the requested number of bytes from the head", good, norm(st[0]) if st else "?", crb, 'D1')
   pk = q.find_method(repo, iow, 'peek', 'C02'); ctx.analysed(pk)
@@ -440,24 +467,26 @@ def _buffers (ctx, repo):
   gp_ = q.cfg_of(pk); vals_ = {}
   for ln_ in (None, 2):
     outs_ = set()
-    for p_, e_ in q.paths_under(repo, iow.module, gp_, q.Env({'self.receive_buf': b'abcdef', (pk.params[1] if len(pk.params) > 1 else 'length'): ln_}), gp_.entry, [n_ for n_ in gp_.nodes if n_.kind == 'return'], iow, limit=20):
-      try: outs_.add((q.eval_env2(repo, iow.module, p_[-1].ast.value, e_, iow), e_.exact.get('self.receive_buf')))
+    for p_, e_ in q.paths_under(repo, iow.module, gp_, q.Env({RB: RBK(b'abcdef'), (pk.params[1] if len(pk.params) > 1 else 'length'): ln_}), gp_.entry, [n_ for n_ in gp_.nodes if n_.kind == 'return'], iow, limit=20):
+      try:
+        v1_ = q.eval_env2(repo, iow.module, p_[-1].ast.value, e_, iow); v2_ = e_.exact.get(RB)
+        outs_.add((bytes(v1_) if isinstance(v1_, bytearray) else v1_, bytes(v2_) if isinstance(v2_, bytearray) else v2_))
       except Exception: outs_.add('?')
     vals_[ln_] = outs_
   if any('?' in v_ or not v_ for v_ in vals_.values()):
-    ctx.ob('R-AGREE', pk, "peek shows the buffer from its head without consuming", set(rv) <= {'self.receive_buf', 'self.receive_buf[:length]'} and not [1 for t, v, s_, k in q.stores_in(pk.node)], "returns %s" % rv, pk, 'D1')
+    ctx.ob('R-AGREE', pk, "peek shows the buffer from its head without consuming", set(rv) <= {RB, '%s[:length]' % RB} and not [1 for t, v, s_, k in q.stores_in(pk.node)], "returns %s" % rv, pk, 'D1')
   else:
     good_ = vals_[None] == {(b'abcdef', b'abcdef')} and vals_[2] == {(b'ab', b'abcdef')}
     ctx.ob('R-AGREE', pk, "peek shows the buffer from its head without consuming", good_, "peek() / peek(2) on a sample buffer" if good_ else "on the buffer b'abcdef' peek() gives %s and peek(2) gives %s (value, buffer afterwards)" % (sorted(vals_[None]), sorted(vals_[2])), pk, 'D1')
   prd = q.find_method(repo, iow, '_push_receive_data', 'C02'); ctx.analysed(prd)
   g = q.cfg_of(prd)
-  app = [q.enclosing_stmt_node(g, s_) for t, v, s_, k in q.stores_in(prd.node) if norm(t) == 'self.receive_buf']
+  app = [q.enclosing_stmt_node(g, s_) for t, v, s_, k in q.stores_in(prd.node) if norm(t) == RB]
   hrx = g.nodes_with_call(lambda c: call_name(c) in ('_handle_rx',) or (call_name(c) == '_call_safe' and '_handle_rx' in norm(c)))
   good = bool(app) and bool(hrx) and g.dominates(app[0], hrx[0]) and g.postdominates(hrx, app[0])
   ctx.ob('R-ORDER', prd, "every arrival is appended and then handed to the receive handler", good, "append dominates _handle_rx, which follows on every path" if good else "arrival can skip the receive handler or be handled before it is appended", prd, 'D7')
 
 
-def _suffix_by_evaluation (repo, mod, cls, f, attr):
+def _suffix_by_evaluation (repo, mod, cls, f, attr, kind=bytes):
   """the function evaluated on a sample buffer (b'abcdef') with every numeric-looking parameter = 2 and = None: on every path that
   completes, what it leaves in `attr` is a suffix of the sample (a prefix was dropped, nothing else changed)"""
   g = q.cfg_of(f)
@@ -465,11 +494,12 @@ def _suffix_by_evaluation (repo, mod, cls, f, attr):
   decided = False
   avail = (lambda e: isinstance(e, ast.Attribute) and e.attr == 'available' and norm(e.value) == 'self')
   for val in (2, None, 6):
-    ex = {attr: sample}
+    ex = {attr: kind(sample)}
     for p_ in f.params[1:]: ex[p_] = val
     paths = q.paths_under(repo, mod, g, q.Env(ex, [(avail, len(sample))]), g.entry, [g.exit], cls, limit=40)
     for p_, e_ in paths:
       out = e_.exact.get(attr, '?')
+      if isinstance(out, bytearray): out = bytes(out)
       if not isinstance(out, bytes): return False
       if not sample.endswith(out): return False
       decided = True
